@@ -1186,7 +1186,10 @@ func abs(x float64) float64 {
 }
 
 func roundup(x float64) float64 {
-	return math.Round(x*10) / 10
+	// The exact result is rounded half-up to one decimal. Binary noise can
+	// leave an exact x.x5 tie slightly below it, so a small epsilon is added
+	// first (as in FIRST's reference calculator, roundToDecimalPlaces).
+	return math.Round((x+0.000001)*10) / 10
 }
 
 // Nomenclature returns the CVSS v4.0 configuration used when scoring.
